@@ -382,6 +382,18 @@ def register(chk):
     c06_loops.register(chk)
 
 
+def include_in(chk):
+    """this check's obligations registered inside a check of a layer above (framework.Check.include)"""
+    sys.path.insert(0, os.path.dirname(os.path.abspath(__file__)))
+    prog_for()
+    import c06_loops
+    c06_loops.prog()
+    import c07
+    c07.prog()
+    chk.replayer = replay_wnaf
+    register(chk)
+
+
 def main(argv=None):
     chk = Check("C06", "proof", argv)
     chk.replayer = replay_wnaf
@@ -397,6 +409,9 @@ def main(argv=None):
                   "NOT covered yet unless listed among the obligations: GLV / powers-of-x decompositions, table multiplication loops, endomorphism formulas"]
     chk.trusted = ["BigInt<bits> word operations meet their bit-vector specifications (C02)", "clang -O1 IR vs -Ofast build (replay uses shipped flags)", "z3"]
     chk.assumptions = ["later iterations: c <= 2^(bits-1) + 2^(w-1), implied by the invariant (lemma B2)"]
+    # lower layers whose specifications this check relies on: their obligations are part of this check's claim (framework.Check.include)
+    for dep in ['C02', 'C04', 'C05']:
+        chk.include(dep)
     chk.run()
     chk.finish()
 
